@@ -14,6 +14,8 @@ CHECKS = {
              ref="DESIGN.md 5 C03"),
  "C04": dict(text="Same exploration as C03 judged for UniqueSiblings/NamesOK, plus the OdmlIds model (constructors and new_id of all three kinds x 10 id input classes) judged for canonical ids.",
              ref="DESIGN.md 5 C04"),
+ "C05": dict(text="Every (abstract Property state [dtype, number of values], operation, input class, strict flag) of the OdmlValues reference model is replayed into a real Property, plus seeded operation histories on one evolving Property; TLC judges Conforms / DtypeStep / SelfAssign / refused-changes-nothing on each observation and conformance to the reference model.",
+             ref="DESIGN.md 5 C05"),
  "C06": dict(text="Atomic(pre,out,post) (a raised call leaves the whole projected world unchanged) is judged by TLC on every observation of every check family that can raise; the refusal disjuncts of the reference models are the enumerated fault set.",
              ref="DESIGN.md 5 C06"),
 }
